@@ -334,6 +334,7 @@ def _judge_grid(space, sel, obs, label):
         off, fails = best
         c08.extend(fails)
         offsets[kind] = (off, oshape)
+        new.offsets = offsets
         new.kinds[kind] = {'dims': list(dims), 'shape': list(oshape)}
     # variables without a grid kind, coordinates
     for name, v in space.vars.items():
@@ -527,7 +528,7 @@ def _norm_attr(v):
     return v
 
 
-def judge_passthrough(space: Space, pre, obs, label):
+def judge_passthrough(space: Space, pre, obs, label, new=None):
     """Coordinates and attributes pass through unchanged (C08 last sentence). `pre` = observation of the input dataset."""
     fails = []
     for k, v in pre['attrs'].items():
@@ -544,7 +545,38 @@ def judge_passthrough(space: Space, pre, obs, label):
             if _norm_attr(ov['attrs'].get(k)) != _norm_attr(v):
                 fails.append(('attribute-changed', f'{label}: attribute {k!r} of {name} is {ov["attrs"].get(k)!r}, input had {v!r}'))
                 break
+    for name in obs['vars']:
+        if name not in pre['vars']:
+            fails.append(('variable-unexpected', f'{label}: the result has a variable {name} that the clipped dataset does not have'))
+            break
     world = space.world
+    offsets = getattr(new, 'offsets', None)
+    if offsets and space.conv != 'ugrid':
+        # grid coordinates (and bounds) are cropped to the kept block, never altered
+        where = {}
+        for kind, (off, oshape) in offsets.items():
+            for d, a, o in zip(space.kinds[kind]['dims'], off, oshape):
+                where[d] = slice(a, a + o)
+        for name in world.geometry_names():
+            pv, ov = pre['vars'].get(name), obs['vars'].get(name)
+            if pv is None or ov is None or list(pv['dims']) != list(ov['dims']):
+                continue
+            if not any(d in where for d in pv['dims']):
+                continue
+            want = numpy.asarray(pv['values'])[tuple(where.get(d, slice(None)) for d in pv['dims'])]
+            got = numpy.asarray(ov['values'])
+            if not (want.dtype.kind == 'f' and got.dtype.kind == 'f' and want.shape == got.shape):
+                continue
+            if name in obs['coords']:
+                bad = not common.arrays_equal_nan(got, want)
+            else:
+                # held as a data variable on the grid it is blanked at unselected cells like any other variable;
+                # whatever is left must be the input's value
+                keep = ~numpy.isnan(got)
+                bad = bool((got[keep] != want[keep]).any())
+            if bad:
+                fails.append(('coordinate-changed', f'{label}: values of geometry variable {name} are not those of the input at the kept block'))
+                break
     t = world.spec.get('time')
     if t and t['name'] in pre['vars']:
         ov = obs['vars'].get(t['name'])
